@@ -16,6 +16,10 @@ import (
 
 const eof rune = -1
 
+// maxParam is the largest value a numeric parameter can take; longer digit
+// strings saturate at this value
+const maxParam = 1<<31 - 1
+
 // https://vt100.net/emu/dec_ansi_parser
 //
 // parser is an implementation of Paul Flo Williams' VT500-series
@@ -316,9 +320,14 @@ func (p *Parser) csiDispatch(r rune) {
 			param = append(param, ps)
 			ps = 0
 		default:
-			// All of our non ';' and ':' bytes are a digit.
-			ps *= 10
-			ps += int(b) - 0x30
+			// All of our non ';' and ':' bytes are a digit. Saturate
+			// instead of overflowing on absurdly long parameters
+			d := int(b) - 0x30
+			if ps > (maxParam-d)/10 {
+				ps = maxParam
+			} else {
+				ps = ps*10 + d
+			}
 		}
 	}
 	param = append(param, ps)
